@@ -409,6 +409,115 @@ func e14ListErrCase(P time.Duration, kind int, failAt int, seed uint64) Case {
 	}}
 }
 
+
+// e14LongPeriodCase: refresh periods of years ("list once, then rely on the
+// watch").  After the first list nothing is listed for (almost) one period, and
+// then the next list comes within the period's fuzz.
+func e14LongPeriodCase(P time.Duration, seed uint64) Case {
+	id := fmt.Sprintf("E14/long-period/%s/%d", P, seed)
+	return Case{ID: id, Desc: map[string]interface{}{"period": P.String(), "what": "multi-year refresh period"}, Bubble: true, Run: func(r *Res) {
+		core := kit.NewCore(&kit.Plan{Seed: seed, PYield: 100})
+		srv := kit.NewPodServer(core)
+		srv.Put(kit.Pod("n0", "a", "", nil))
+		srv.MaxLists = 40
+		g, err := newCtlRig(core, srv, P, nil)
+		if err != nil {
+			r.Inc(err.Error())
+			return
+		}
+		if !waitCh(g.ctl.Ready(), virtBound) {
+			r.V("C13", "never-ready", "controller not ready")
+			return
+		}
+		time.Sleep(P - P/8)
+		core.Barrier()
+		r.Add("gap-checks", 1)
+		if n := len(srv.Lists()); n != 1 {
+			ls := srv.Lists()
+			r.V("C13", "relist-too-early", "refresh period %v: %d list calls within %v of the first (the second started %v after the first returned)", P, n, P-P/8, ls[1].Start.Sub(ls[0].End))
+			g.shutdown(r, "C12")
+			return
+		}
+		time.Sleep(P / 4)
+		core.Barrier()
+		r.Add("count-checks", 1)
+		if n := len(srv.Lists()); n < 2 {
+			r.V("C13", "relisting-stopped", "refresh period %v: still only %d list call %v after the first", P, n, P+P/8)
+		}
+		r.Add("lists", int64(len(srv.Lists())))
+		g.shutdown(r, "C12")
+		r.Key(id)
+	}}
+}
+
+// e14TwoBuildersCase: refresh periods are per controller.  Several builders are
+// prepared and configured in one order and created in another; each controller
+// relists at ITS period (the default, one minute, where none was given).
+func e14TwoBuildersCase(seed uint64, n int) Case {
+	id := fmt.Sprintf("E14/builders-side-by-side/%d/%d", seed, n)
+	return Case{ID: id, Desc: map[string]interface{}{"n": n, "what": "several builders with different (or default) refresh periods in one process"}, Bubble: true, Run: func(r *Res) {
+		core := kit.NewCore(&kit.Plan{Seed: kit.Mix(seed, uint64(n)), PYield: 100})
+		log := kit.NewLog(core)
+		type spec struct {
+			name   string
+			period time.Duration // 0 = not set: the default of one minute
+			srv    *kit.Server
+			ctl    kcache.Controller
+			b      kcache.Builder
+		}
+		specs := []*spec{{name: "A", period: 2 * time.Second}, {name: "B"}, {name: "C", period: time.Hour}, {name: "D", period: 7 * time.Second}}
+		order := [][]int{{0, 1, 2, 3}, {3, 2, 1, 0}, {1, 0, 3, 2}, {2, 3, 0, 1}}[n%4]
+		ctx, cancel := ctxWithCancel()
+		defer cancel()
+		// prepare and configure all builders first ...
+		for _, i := range order {
+			sp := specs[i]
+			sp.srv = kit.NewPodServer(core)
+			sp.srv.Put(kit.Pod("n0", "a", "", nil))
+			sp.b = kcache.NewBuilder().Context(ctx).Log(log).Client(sp.srv)
+			if sp.period > 0 {
+				sp.b.Lister().RefreshPeriod(sp.period)
+			}
+		}
+		// ... then create them, in the reverse order
+		for k := len(order) - 1; k >= 0; k-- {
+			sp := specs[order[k]]
+			c, err := sp.b.Create()
+			if err != nil {
+				r.Inc(err.Error())
+				return
+			}
+			sp.ctl = c
+		}
+		T := 5 * time.Minute
+		time.Sleep(T)
+		core.Barrier()
+		for _, sp := range specs {
+			P := sp.period
+			if P == 0 {
+				P = time.Minute
+			}
+			lists := sp.srv.Lists()
+			lo, hi := int(T/(P+P/10+time.Millisecond)), int(T/(P-P/10))+2
+			r.Add("count-checks", 1)
+			r.Add("lists", int64(len(lists)))
+			if len(lists) < lo || len(lists) > hi {
+				what := "relisting-stopped"
+				if len(lists) > hi {
+					what = "relist-too-early"
+				}
+				r.V("C13", what, "controller %s (refresh period %v, builders prepared in order %v and created in reverse) issued %d list calls in %v; between %d and %d expected", sp.name, P, order, len(lists), T, lo, hi)
+			}
+		}
+		for _, sp := range specs {
+			within(func() { sp.ctl.Close() })
+		}
+		cancel()
+		core.Barrier()
+		r.Key(id)
+	}}
+}
+
 func init() {
 	register("E14", func(tier string, seed uint64) []Case {
 		var cases []Case
@@ -425,6 +534,13 @@ func init() {
 				for _, at := range []int{1, 2, 4} {
 					cases = append(cases, e14ListErrCase(time.Second, kind, at, seed+uint64(rep)))
 				}
+			}
+			year := 365 * 24 * time.Hour
+			for _, P := range []time.Duration{3 * year, 4 * year, 5 * year, 10 * year, 50 * year, 100000 * time.Hour, 1 << 60, 1 << 62} {
+				cases = append(cases, e14LongPeriodCase(P, seed+uint64(rep)))
+			}
+			for i := 0; i < 4; i++ {
+				cases = append(cases, e14TwoBuildersCase(seed+uint64(rep), i))
 			}
 		}
 		periods := []time.Duration{time.Second, 10 * time.Second, time.Minute}
